@@ -2,7 +2,7 @@
    from the C++ sources on every run, Gen/Guards_gen.v) imply what the kernels rely on, and the Python raise sites that protect
    kernels without native checks are present.  Runtime half (crash / hang freedom of the compiled code): tools/vlib/props/c11.py. *)
 Require Import ZArith List Bool String.
-Require Import MV.Base.Desc MV.Gen.Guards_gen MV.Proof.GuardsProof.
+Require Import MV.Base.Desc MV.Gen.Guards_gen MV.Gen.OutConv_gen MV.Proof.GuardsProof.
 Open Scope Z_scope.
 
 Theorem C11_neighbourhood_kernels_guarded array Bc output unk :
@@ -87,3 +87,9 @@ Theorem C11_slic_seeding_terminates_under_guard : forall S Ny, 0 < S -> 0 <= Ny 
 Proof. exact slic_seeding_terminates. Qed.
 Theorem C11_slic_seeding_hangs_without_guard : forall Ny fuel y acc, y < Ny -> seed_loop fuel y 0 Ny acc = None.
 Proof. exact slic_seeding_hangs_without_guard. Qed.
+
+(* the shared out= helper (internal.py::_get_output, RE-TRANSLATED on every run) rejects a read-only buffer with ValueError/TypeError
+   before returning it to a kernel: nothing is ever written through an array whose memory may be immutable (bytes, mmap, a
+   constant of another library) *)
+Theorem C11_read_only_out_is_rejected : get_output_rejects_readonly = true.
+Proof. reflexivity. Qed.
